@@ -81,6 +81,14 @@ func (g *G) Member() string {
 	return g.pick("a", "b", "c", "d", "e", "f", "1", "2", "3")
 }
 
+// Elem: list elements come from a very small alphabet so that duplicates and matches are common
+func (g *G) Elem() string {
+	if g.R.Intn(10) == 0 {
+		return g.Member()
+	}
+	return g.pick("a", "b", "c")
+}
+
 func (g *G) Int() string {
 	switch g.R.Intn(12) {
 	case 0:
@@ -276,8 +284,8 @@ func init() {
 	// ---- lists
 	add("list mixed tx expiry keys", 12, func(g *G) []string {
 		a := []string{g.pick("LPUSH", "RPUSH", "RPUSH", "LPUSHX", "RPUSHX"), g.Key()}
-		for i := 0; i < 1+g.R.Intn(3); i++ {
-			a = append(a, g.Member())
+		for i := 0; i < 1+g.R.Intn(4); i++ {
+			a = append(a, g.Elem())
 		}
 		return a
 	})
@@ -291,23 +299,23 @@ func init() {
 	add("list mixed", 3, func(g *G) []string { return []string{"LLEN", g.Key()} })
 	add("list mixed", 5, func(g *G) []string { return []string{"LINDEX", g.Key(), g.Int()} })
 	add("list mixed keys expiry", 8, func(g *G) []string { return []string{"LRANGE", g.Key(), g.Int(), g.Int()} })
-	add("list mixed", 5, func(g *G) []string { return []string{"LSET", g.Key(), g.SmallInt(), g.Member()} })
+	add("list mixed", 5, func(g *G) []string { return []string{"LSET", g.Key(), g.SmallInt(), g.Elem()} })
 	add("list mixed", 5, func(g *G) []string {
-		return []string{"LINSERT", g.Key(), g.kw(g.pick("BEFORE", "AFTER")), g.Member(), g.Member()}
+		return []string{"LINSERT", g.Key(), g.kw(g.pick("BEFORE", "AFTER")), g.Elem(), g.Elem()}
 	})
-	add("list mixed", 5, func(g *G) []string { return []string{"LREM", g.Key(), g.Int(), g.Member()} })
+	add("list mixed", 5, func(g *G) []string { return []string{"LREM", g.Key(), g.pick("0", "1", "-1", "2", "-2", "5", "-5", g.Int()), g.Elem()} })
 	add("list mixed", 5, func(g *G) []string { return []string{"LTRIM", g.Key(), g.Int(), g.Int()} })
 	add("list mixed", 6, func(g *G) []string {
-		a := []string{"LPOS", g.Key(), g.Member()}
+		a := []string{"LPOS", g.Key(), g.Elem()}
 		var groups [][]string
-		if g.R.Intn(2) == 0 {
-			groups = append(groups, []string{g.kw("RANK"), g.pick("1", "2", "-1", "-2", "0", "3", "-9223372036854775808")})
+		if g.R.Intn(3) > 0 {
+			groups = append(groups, []string{g.kw("RANK"), g.pick("1", "2", "-1", "-2", "-1", "-3", "0", "3", "-9223372036854775808")})
 		}
 		if g.R.Intn(2) == 0 {
 			groups = append(groups, []string{g.kw("COUNT"), g.pick("0", "1", "2", "5", "-1")})
 		}
-		if g.R.Intn(3) == 0 {
-			groups = append(groups, []string{g.kw("MAXLEN"), g.pick("0", "1", "2", "3", "-1", "100")})
+		if g.R.Intn(2) == 0 {
+			groups = append(groups, []string{g.kw("MAXLEN"), g.pick("0", "1", "2", "3", "4", "-1", "100")})
 		}
 		return append(a, shuffle(g, groups)...)
 	})
@@ -381,7 +389,44 @@ func init() {
 		return a
 	})
 
+	// many fields at once: grows the one-item-per-bucket table through several doublings; the bulk
+	// deletes shrink it again
+	add("hash", 5, func(g *G) []string {
+		a := []string{"HSET", g.Key()}
+		for i := 0; i < 6+g.R.Intn(10); i++ {
+			a = append(a, fmt.Sprintf("f%d", g.R.Intn(48)), g.pick("v", "w", "1", "h\xc3\xa9"))
+		}
+		return a
+	})
+	add("hash", 6, func(g *G) []string {
+		a := []string{"HDEL", g.Key()}
+		for i := 0; i < 6+g.R.Intn(14); i++ {
+			a = append(a, fmt.Sprintf("f%d", g.R.Intn(48)))
+		}
+		return a
+	})
+	add("hash", 4, func(g *G) []string {
+		return []string{g.pick("HGET", "HEXISTS", "HSTRLEN"), g.Key(), fmt.Sprintf("f%d", g.R.Intn(48))}
+	})
+
 	// ---- sets
+	add("set", 5, func(g *G) []string {
+		a := []string{"SADD", g.Key()}
+		for i := 0; i < 6+g.R.Intn(10); i++ {
+			a = append(a, fmt.Sprintf("m%d", g.R.Intn(48)))
+		}
+		return a
+	})
+	add("set", 6, func(g *G) []string {
+		a := []string{"SREM", g.Key()}
+		for i := 0; i < 6+g.R.Intn(14); i++ {
+			a = append(a, fmt.Sprintf("m%d", g.R.Intn(48)))
+		}
+		return a
+	})
+	add("set", 3, func(g *G) []string {
+		return []string{"SISMEMBER", g.Key(), fmt.Sprintf("m%d", g.R.Intn(48))}
+	})
 	add("set mixed tx keys expiry", 12, func(g *G) []string {
 		return append([]string{"SADD", g.Key()}, g.membersN(1, 4)...)
 	})
@@ -604,6 +649,10 @@ func (g *G) membersN(lo, hi int) []string {
 func inFam(t tmpl, fam string) bool {
 	for _, f := range strings.Fields(t.fams) {
 		if f == fam {
+			return true
+		}
+		// the expiry family applies every data command to keys in every lifetime phase
+		if fam == "expiry" && (f == "str" || f == "list" || f == "hash" || f == "set" || f == "keys" || f == "bits") {
 			return true
 		}
 	}
